@@ -5,7 +5,23 @@ package verifhook
 import (
 	"runtime"
 	"sync"
+	"time"
+	"unsafe"
 )
+
+// task identity for scheduler L: the goroutine-local profiler-label pointer
+// (see schedp.go). Goroutines started by library code inherit their task's
+// identity.
+type llabel struct{ id int }
+
+//go:norace
+func lid() int {
+	p := (*llabel)(runtime_getProfLabel())
+	if p == nil {
+		return -1
+	}
+	return p.id
+}
 
 // Scheduler L: tasks are real goroutines under GOMAXPROCS(1); a plain `turn`
 // variable says who may run. At a yield the running task may hand the turn to
@@ -32,7 +48,16 @@ type LResult struct {
 	Forced    int // switches forced at targeted sites
 	PerTask   []int
 	Interleaved bool // at least two tasks each ran a step between another task's first and last step
+	// Stalls counts how often the turn holder made no progress for stallAfter
+	// (it was blocked in a real synchronisation primitive of the code under
+	// test) and the turn was taken over by a waiting task.
+	Stalls int
 }
+
+// a turn holder that executes no yield for this long is considered blocked in
+// a real primitive (mutex, channel, WaitGroup) held by a task that is waiting
+// for its turn; BuildExpr, the longest un-instrumented step, takes a few ms
+const stallAfter = 400 * time.Millisecond
 
 var l struct {
 	turn     int
@@ -51,8 +76,28 @@ var l struct {
 
 //go:norace
 func waitTurn(me int) {
+	spins := 0
+	lastSteps := l.steps
+	var since time.Time
 	for l.turn != me {
 		runtime.Gosched()
+		spins++
+		if spins%2048 != 0 {
+			continue
+		}
+		if l.steps != lastSteps || l.turn < 0 {
+			lastSteps, since = l.steps, time.Time{}
+			continue
+		}
+		if since.IsZero() {
+			since = time.Now()
+			continue
+		}
+		if time.Since(since) > stallAfter && l.turn >= 0 && l.turn < l.n && !l.done[l.turn] && l.turn != me {
+			// the holder is blocked in a primitive of the code under test: take over
+			l.res.Stalls++
+			l.turn = me
+		}
 	}
 }
 
@@ -107,9 +152,14 @@ func bestPrio(except int) int {
 
 //go:norace
 func yieldL(site int) {
-	me := l.turn
-	if me < 0 || me >= l.n {
+	me := lid()
+	if me < 0 || me >= l.n || l.done[me] {
 		return // not inside a simulated task (e.g. harness pre-computation)
+	}
+	if l.turn != me {
+		// a task that was blocked in a real primitive (and lost the turn
+		// meanwhile) waits here until it is scheduled again
+		waitTurn(me)
 	}
 	l.steps++
 	l.res.PerTask[me]++
@@ -162,6 +212,12 @@ func yieldL(site int) {
 
 //go:norace
 func exitL(me int) {
+	if l.turn != me {
+		// finished without holding the turn (it had been taken over while this
+		// task was blocked): nothing to hand on
+		l.done[me] = true
+		return
+	}
 	l.done[me] = true
 	var next int = -1
 	if l.cfg.Strategy == 1 {
@@ -257,6 +313,7 @@ func RunL(scripts []func(), cfg LConfig) LResult {
 		wg.Add(1)
 		go func(me int) {
 			defer wg.Done()
+			runtime_setProfLabel(unsafe.Pointer(&llabel{id: me}))
 			waitTurn(me)
 			defer exitL(me)
 			scripts[me]()
